@@ -95,7 +95,7 @@ Proof.
   repeat rd. cbn [bind]. destruct (_ || _); auto.
 Qed.
 
-Lemma probes_good alim f : Forall (fun p => good (p f)) (probes true alim).
+Lemma probes_good alim flen f : Forall (fun p => good (p f)) (probes true alim flen).
 Proof.
   unfold probes.
   apply Forall_cons; [apply good_bind; [apply elf_probe_good|auto]|].
@@ -152,8 +152,8 @@ Proof.
     try (exfalso; now apply F2); cbn [bind].
   - destruct fm as [segs|].
     + split; [reflexivity|split; [discriminate|discriminate]].
-    + pose proof (probe_loop_settled (probes true alim) f (probes_good alim f)) as [P1 [P2 P3]].
-      destruct (probe_loop (probes true alim) f) as [p|st w| | | | |] eqn:Ep; try discriminate;
+    + pose proof (probe_loop_settled (probes true alim flen) f (probes_good alim flen f)) as [P1 [P2 P3]].
+      destruct (probe_loop (probes true alim flen) f) as [p|st w| | | | |] eqn:Ep; try discriminate;
         try (exfalso; now apply P2); cbn [bind].
       * split; [reflexivity|split; [discriminate|discriminate]].
       * split; [reflexivity|split; [discriminate|]]. intros s1 s2 E. injection E as <- <-.
